@@ -13,7 +13,7 @@ CLAIMED = {
      text="Seeded search over placements of sync requests inside update streams (with and without a preceding link, several remotes syncing at once); at each synced frame every key of the remote's replica must hold a state the lane held between the sync request and that instant, and the remote must converge afterwards.",
      note="as C01; genuine defects are recorded in known_findings.json and reported as KNOWN-FINDING; the sync queues (WriteQueues inside the real MapStoreInner) are additionally driven as a component (part queues)"),
  "C04": dict(level="exploration", ref="DESIGN.md §4 C04", technique="deterministic simulation with link/sync/unlink churn, unknown lanes, disconnects, mid-stream stop; per (remote,lane) state-machine oracle and body-integrity oracle",
-     text="Seeded search over interleavings of link/sync/unlink/command envelopes from several remotes incl. unknown lanes, remotes that freeze or disconnect, stop trigger and inactivity time-out at arbitrary steps; every (remote, lane) frame stream must follow the link state machine, lane-not-found answers must match requests, open links must be closed with unlinked on stop and the disconnection promise fulfilled; every event body must be one the lane produced.",
+     text="Seeded search over interleavings of link/sync/unlink/command envelopes from several remotes incl. unknown lanes, remotes that freeze, disconnect or die in the middle of a command frame, command envelopes with malformed bodies, stop trigger and inactivity time-out at arbitrary steps; every (remote, lane) frame stream must follow the link state machine, lane-not-found answers must match requests, open links must be closed with unlinked on stop and the disconnection promise fulfilled; every event body must be one the lane produced.",
      note="as C01; lane failure is injected through a scripted Agent implementation (agent-c04f); the per-remote Uplinks/RemoteTracker write queue is additionally driven as a component (part uplinks: private product source compiled in with #[path], op sequences against a reference queue, frames decoded from the real byte channel)"),
  "C14": dict(level="exploration", ref="DESIGN.md §4 C14", technique="deterministic simulation with supply bursts, command streams and agent-sent commands to slow targets; exactly-once / order oracles",
      text="Seeded search over push bursts (up to 200 items, far beyond any buffer), command streams from several remotes and ad hoc sends (overwritable and queued) to up to three slow targets; supply items must arrive once and in order at every remote that stays linked, command handlers must run exactly once in each sender's order, forwarded commands must be in order, duplicate-free and only overwritable ones may be superseded.",
@@ -27,7 +27,7 @@ CLAIMED["C20"] = dict(level="exploration", ref="DESIGN.md §4 C20", technique="d
      text="Seeded search over link/unlink/sync churn, remote disconnects, freezes, stop and time-out with introspection reporting enabled; at every idle point each lane's and the agent's reported uplink count must equal the number of links open according to the frames read (bounds when a remote is frozen or disconnected), the aggregate must equal the sum of the lanes, and the sums of all snapshots must account for every event frame read and every command delivered.",
      note="as C01; lane failure via agent-c04f; the Links registry + UplinkReporter are additionally driven as a component (part links: sequential op sequences against a reference pair set); counting from several OS threads at once is not explored")
 CLAIMED["C06"] = dict(level="exploration", ref="DESIGN.md §4 C06", technique="deterministic simulation of the real agent model + runtime running generated handler programs (sent as commands) under seeded schedules and timer delays; recorded effect trace compared with a reference interpreter of the documented handler semantics",
-     text="Seeded generated acyclic handler programs (trees of set/update/remove/clear/get/effect/and_then/followed_by/sequentially/suspend/fail over 3 value items and 2 map lanes whose derived lifecycle handlers themselves run generated programs) are sent as commands to a real derived agent running on the real agent runtime under the seeded executor with drawn channel sizes, budgets and suspension delays; the trace recorded through effect closures must equal, entry by entry, what a reference interpreter of docs/event_handler.md yields (depth-first, on_event then on_set with the true previous value, on_update/on_remove/on_clear with the true previous entry and map, exactly one trigger per change, on_start first, on_stop last, nothing of a failed handler or of the handlers it interrupted after the failure).",
+     text="Seeded generated acyclic handler programs (trees of set/update/remove/clear/get/effect/and_then (also with a multi-step first part)/followed_by/sequentially/suspend/run_after/fail/stop over 3 value items and 2 map lanes whose derived lifecycle handlers themselves run generated programs) are sent as commands (plus commands sent straight to the value and map lanes) to a real derived agent running on the real agent runtime under the seeded executor with drawn channel sizes, budgets and suspension delays; the trace recorded through effect closures must equal, entry by entry, what a reference interpreter of docs/event_handler.md yields (depth-first, on_event then on_set with the true previous value, on_update/on_remove/on_clear with the true previous entry and map, exactly one trigger per change, on_start first, on_stop last, nothing of a failed handler or of the handlers it interrupted after the failure).",
      note="the order of top-level triggers is taken from the trace (schedule dependent); where the documents are silent the reference follows the code (listed in the evidence assumptions); cyclic programs are not generated")
 CLAIMED["C07"] = dict(level="exploration", ref="DESIGN.md §4 C07", technique="deterministic simulation of the real downlink runtime shared by scripted consumers against a scripted remote lane; session, ordering, supersession and final-state oracles",
      text="Seeded search over arrival times of 1-4 consumers (with/without SYNC and KEEP_LINKED), their command streams, read speeds and drops, remote notification sequences (external changes, unlink), channel capacities and schedules on the real Value/MapDownlinkRuntime; each consumer must get linked, (if asked) synced with a state the lane held, every later event in order, unlinked at close; on the socket side commands arrive in order where order matters (value: totally, map: per key and across a clear), nothing is duplicated or invented, and the lane ends as if every command had been sent; with consumers attached, passing time must not stop the runtime.",
